@@ -48,7 +48,7 @@ ASSUMPTIONS = [
     "a leak is reported only after repetition makes compilation actually fail (<= 20 repetitions)",
     "register-future measurements are limited to 6 per flush segment (M registers are held until flush by design)",
 ]
-PROBES = ["epr-op", "ops>=100", "ops>=250", "flushes>=10", "depth-3", "if-on-future-unary",
+PROBES = ["other-connection-holds-registers", "epr-op", "ops>=100", "ops>=250", "flushes>=10", "depth-3", "if-on-future-unary",
           "loop_until", "regfuture-measure"]
 
 REPEAT = 20
@@ -104,6 +104,17 @@ def run(ch: Choices, opts: Dict[str, Any]) -> Dict[str, Any]:
 
     mm.add_active_register = add_active_register  # type: ignore[assignment]
 
+    # a second connection of the same process (another application's host) holds most of ITS registers in open loops
+    # for a stretch of the history: what this connection can compile must not depend on it
+    by_from = by_to = -1
+    by_stack = None
+    if not calm and ch.flag(1, 3, "bystander"):
+        by_from = ch.draw(max(n_ops - 5, 1), "byfrom")
+        by_to = by_from + 3 + ch.draw(30, "bylen")
+        by_depth = 12 + ch.draw(4, "bydepth")
+        node_b = ControllerNode("nb", 5, TraceQMem(lambda q: 0), lambda: sched.now, flavour="vanilla", with_stack=False)
+        conn_b = SimConnection("bystander", node_b, max_qubits=2)
+
     history: List[tuple] = []
     sample = {"k_flush": k_flush, "history": history, "outcomes": script}
     n_flush = 0
@@ -128,6 +139,17 @@ def run(ch: Choices, opts: Dict[str, Any]) -> Dict[str, Any]:
 
     i = 0
     while i < n_ops:
+        if i == by_from and by_stack is None:
+            import contextlib
+            by_stack = contextlib.ExitStack()
+            for _ in range(by_depth):
+                by_stack.enter_context(conn_b.loop(2))
+            bump(probes, "other-connection-holds-registers")
+            bump(faults, "other-connection-holds-its-registers-open")
+        if i == by_to and by_stack is not None:
+            by_stack.close()
+            by_stack = None
+            by_to = -2
         stmts = gen.stmt(top=True)
         if not stmts:
             i += 1
@@ -180,6 +202,8 @@ def run(ch: Choices, opts: Dict[str, Any]) -> Dict[str, Any]:
         i += 1
         if i % k_flush == 0:
             do_flush(f"flush#{n_flush + 1}@op{i}")
+    if by_stack is not None:
+        by_stack.close()
     # consume live qubits and close
     for q in list(gen.live):
         t = gen.target()
@@ -271,11 +295,16 @@ def epr_phase(ch: Choices, tier: str, bump, probes, faults, small: Dict[str, Any
             sock.create_keep(number=n, post_routine=post, sequential=True)
         elif kind == "recv_keep_post":
             sock.recv_keep(number=n, post_routine=post, sequential=True)
-        elif kind == "create_context":
-            with sock.create_context(number=n, sequential=True) as (q, pair):
-                q.measure(future=outcomes.get_future_index(pair))
-        elif kind == "recv_context":
-            with sock.recv_context(number=n, sequential=True) as (q, pair):
+        elif kind in ("create_context", "recv_context"):
+            ctx = sock.create_context(number=n, sequential=True) if kind == "create_context" else \
+                sock.recv_context(number=n, sequential=True)
+            with ctx as (q, pair):
+                # the pair counter is a live value of the open context: it must be reserved while the body is built
+                preg = str(getattr(pair, "reg", None) or pair) if not isinstance(pair, int) else str(pair.reg)
+                if preg not in {str(r) for r in mm._active_registers}:
+                    raise Violation("live", f"live-register-not-reserved|epr:{kind}",
+                                    {"register": preg, "active": sorted(str(r) for r in mm._active_registers),
+                                     "epr_history": done[-10:], **small})
                 q.measure(future=outcomes.get_future_index(pair))
         elif kind == "create_measure":
             sock.create_measure(number=n, basis_local=EprMeasBasis.X, basis_remote=EprMeasBasis.X)
